@@ -983,8 +983,10 @@ func (b *BaseStore) replicationLoadComplete(ctx context.Context, logs []ipfslog.
 	for _, log := range logs {
 		_, err := oplog.Join(log, -1)
 		if err != nil {
+			// a rejected log must not take the other fetched logs down with it: their
+			// hashes are already marked as fetched and would never be requested again
 			b.Logger().Error("unable to join logs", zap.Error(err))
-			return
+			continue
 		}
 
 		entries = append(entries, log.GetEntries().Slice()...)
